@@ -36,6 +36,9 @@ func c18Grammar() *gen.Grammar {
 		gen.Bin("in", gen.TInt, gen.TIntArr, T),
 		gen.Builtin("any", gen.TIntArr, T, T), gen.Builtin("all", gen.TIntArr, T, T), gen.Builtin("count", gen.TIntArr, T, gen.TInt),
 		gen.Len(gen.TIntArr), gen.Index(gen.TIntArr, gen.TInt, gen.TInt),
+		gen.Var("FA", gen.TFloatArr), gen.Hash(gen.TFloat), gen.Lit("1.5", gen.TFloat, 1.5), gen.Var("F", gen.TFloat),
+		gen.Bin("<", gen.TFloat, gen.TFloat, T), gen.Bin(">=", gen.TFloat, gen.TFloat, T), gen.Bin("==", gen.TFloat, gen.TFloat, T),
+		gen.Builtin("filter", gen.TFloatArr, T, gen.TFloatArr),
 	}
 	return gen.NewGrammar(rules)
 }
@@ -106,19 +109,19 @@ type c18Identity struct {
 }
 
 var c18Identities = []c18Identity{
-	{name: "all=not-any-not", lhs: "all(XS, {P})", rhs: "not any(XS, {not (P)})"},
-	{name: "none=not-any", lhs: "none(XS, {P})", rhs: "not any(XS, {P})"},
-	{name: "one=count-eq-1", lhs: "one(XS, {P})", rhs: "count(XS, {P}) == 1"},
-	{name: "count=len-filter", lhs: "count(XS, {P})", rhs: "len(filter(XS, {P}))"},
-	{name: "len-map=len", lhs: "len(map(XS, {F}))", rhs: "len(XS)", needsF: true, lhsMayFailAlone: true},
-	{name: "any=count-gt-0", lhs: "any(XS, {P})", rhs: "count(XS, {P}) > 0"},
-	{name: "filter-filter", lhs: "filter(filter(XS, {P}), {P})", rhs: "filter(XS, {P})"},
+	{name: "all=not-any-not", lhs: "all(§X§, {§P§})", rhs: "not any(§X§, {not (§P§)})"},
+	{name: "none=not-any", lhs: "none(§X§, {§P§})", rhs: "not any(§X§, {§P§})"},
+	{name: "one=count-eq-1", lhs: "one(§X§, {§P§})", rhs: "count(§X§, {§P§}) == 1"},
+	{name: "count=len-filter", lhs: "count(§X§, {§P§})", rhs: "len(filter(§X§, {§P§}))"},
+	{name: "len-map=len", lhs: "len(map(§X§, {§F§}))", rhs: "len(§X§)", needsF: true, lhsMayFailAlone: true},
+	{name: "any=count-gt-0", lhs: "any(§X§, {§P§})", rhs: "count(§X§, {§P§}) > 0"},
+	{name: "filter-filter", lhs: "filter(filter(§X§, {§P§}), {§P§})", rhs: "filter(§X§, {§P§})"},
 }
 
 func subst(t, xs, p, f string) string {
-	t = strings.ReplaceAll(t, "XS", xs)
-	t = strings.ReplaceAll(t, "P", p)
-	t = strings.ReplaceAll(t, "F", f)
+	t = strings.ReplaceAll(t, "§X§", xs)
+	t = strings.ReplaceAll(t, "§P§", p)
+	t = strings.ReplaceAll(t, "§F§", f)
 	return t
 }
 
@@ -141,6 +144,10 @@ func c18(r *report.Run) {
 	hashArr := &gen.Expr{R: &gen.Rule{Op: "nested-hash", Arg: "#", Out: gen.TIntArr, Atom: true, Fmt: "#"}}
 	xss = append(xss, hashArr)
 	ps := collect(g, gen.NT{T: gen.TBool, Elem: gen.TInt}, np)
+	// float arrays (with a NaN element) and predicates over a float '#'
+	fxs := collect(g, gen.NT{T: gen.TFloatArr, Elem: gen.TNone}, 1)
+	fps := collect(g, gen.NT{T: gen.TBool, Elem: gen.TFloat}, np)
+	nInt := len(xss)
 	fs := collect(g, gen.NT{T: gen.TInt, Elem: gen.TInt}, 3)
 	modes := []lib.Mode{{Env: "struct", Opt: true}, {Env: "struct", Opt: false}, {Env: "noenv", Opt: true}}
 	var runs, cases int64
@@ -152,9 +159,26 @@ func c18(r *report.Run) {
 			Detail: map[string]interface{}{"lhs": lhs, "rhs": rhs, "env": v.Describe(), "what": what}})
 	}
 	exhaustive := true
-	total := len(xss) * len(ps)
+	type pair struct {
+		x, p  *gen.Expr
+		float bool
+	}
+	var pairs []pair
+	for _, x := range xss {
+		for _, p := range ps {
+			pairs = append(pairs, pair{x, p, false})
+		}
+	}
+	for _, x := range fxs {
+		for _, p := range fps {
+			pairs = append(pairs, pair{x, p, true})
+		}
+	}
+	_ = nInt
+	total := len(pairs)
 	par.ForW(total, func(w, k int) {
-		xe, pe := xss[k/len(ps)], ps[k%len(ps)]
+		xe, pe := pairs[k].x, pairs[k].p
+		isFloat := pairs[k].float
 		xs, p := xe.String(), pe.String()
 		fe := fs[k%len(fs)]
 		f := fe.String()
@@ -205,7 +229,7 @@ func c18(r *report.Run) {
 						report1(order, id.name, m.String(), "value", lhs, rhs, v, a.norm+" != "+b.norm, xs, p)
 					}
 					// the identity as ONE expression must evaluate to true
-					if !id.lhsMayFailAlone {
+					if !id.lhsMayFailAlone && !isFloat { // NaN is not equal to itself: the '==' form is meaningless for float arrays
 						one := c18Run("("+lhs+") == ("+rhs+")", m, henv.Make(v), names, &runs)
 						if !one.fail && one.norm != "true" && !a.fail {
 							report1(order, id.name, m.String(), "single-expression-false", lhs, rhs, v, one.norm, xs, p)
@@ -219,7 +243,7 @@ func c18(r *report.Run) {
 						mu.Unlock()
 					}
 				}
-				if nested {
+				if nested || isFloat {
 					continue
 				}
 				// filter keeps exactly the satisfying elements, in order (per-element runs of the predicate)
@@ -348,6 +372,7 @@ func c18(r *report.Run) {
 	r.Sample(map[string]interface{}{"xs": xss[len(xss)-1].String(), "p": ps[len(ps)-1].String(), "identity": "count(XS,{P}) == len(filter(XS,{P}))"})
 	r.Set("array_expressions", len(xss))
 	r.Set("predicates", len(ps))
+	r.Set("float_array_pairs", len(fxs)*len(fps))
 	r.Set("mappers", len(fs))
 	r.Set("identities", len(c18Identities)+4)
 	r.Set("evaluations", runs+extra)
